@@ -346,6 +346,9 @@ int main() {{
     FILE *o = fopen("out.bin", "wb"); fwrite(ab, sizeof(double), NEQUATIONS, o);
     /* the same object renormalises a second state against the same stored reference (no SetReferenceAbund in between) */
     double ab3[NEQUATIONS] = {{ {abarr} }};
+    /* ... also after the solver settings were changed in between (Reset is what drivers call per grid patch): the
+       stored reference is not a solver setting */
+    if (n.Reset(1, 1e-18, 1e-4, 300) != NAUNET_SUCCESS) return 8;
     rc |= n.Renorm(ab3);
     fwrite(ab3, sizeof(double), NEQUATIONS, o);
     /* opt 1: the reference is given as a species abundance vector (absolute densities) */
@@ -386,7 +389,7 @@ int main() {{
         got, got3, got2, got4 = both[:neq], both[neq : 2 * neq], both[2 * neq : 3 * neq], both[3 * neq :]
         for sl, e in exp.items():
             if not (abs(got3[sl] - e) <= 1e-9 * max(abs(e), 1e-300)):  # written so that NaN fails
-                return 1, [(f"C16:compiled-renorm-differs:{backend}:second-call", f"{'+'.join(species)} [{backend}]: a second Renorm on the same object (same reference, same input state) gives ab[{sl}] = {got3[sl]!r}, the first call and the exact solution give {e!r}", case)]
+                return 1, [(f"C16:compiled-renorm-differs:{backend}:second-call", f"{'+'.join(species)} [{backend}]: a second Renorm on the same object (same reference, same input state, Reset(...) with other tolerances in between) gives ab[{sl}] = {got3[sl]!r}, the first call and the exact solution give {e!r}", case)]
         for sl, e in exp.items():
             if not (abs(got[sl] - e) <= 1e-9 * max(abs(e), 1e-300)):  # written so that NaN fails
                 return 1, [(f"C16:compiled-renorm-differs:{backend}:opt0", f"{'+'.join(species)} [{backend}]: SetReferenceAbund(ref, 0) with un-normalised element abundances, then Renorm: ab[{sl}] = {got[sl]!r}, exact solution for ref/ref_H {e!r}", case)]
